@@ -270,7 +270,11 @@ def invalid_cases(draw, tier):
     kind = draw(st.sampled_from(["changing_wrong_means", "changing_wrong_vars", "changing_cpt_negative",
                                  "changing_cpt_beyond", "anomalous_wrong_means", "anomalous_wrong_vars",
                                  "anomalous_start_negative", "anomalous_end_beyond", "anomalous_empty",
-                                 "anomalous_reversed", "anomalous_bad_tuple"]))
+                                 "anomalous_reversed", "anomalous_bad_tuple",
+                                 # a wrong number of parameters that *divides* the number of segments / anomalies ("the two states" for four segments)
+                                 "changing_dividing_count", "anomalous_dividing_count",
+                                 # an invalid anomaly whose own parameters are the baseline ones (mean 0, variance 1: the null run of a power study)
+                                 "anomalous_invalid_with_baseline_parameters"]))
     return {"kind": kind, "n": n, "p": p, "pos": draw(st.integers(1, 30)), "seed": draw(st.integers(0, 1000))}
 
 
@@ -301,6 +305,21 @@ def check_invalid(case):
         call = lambda: generate_anomalous_data(n, [(2, 2)], vec, one, case["seed"])  # noqa: E731
     elif kind == "anomalous_reversed":
         call = lambda: generate_anomalous_data(n, [(3, 1)], vec, one, case["seed"])  # noqa: E731
+    elif kind == "changing_dividing_count":
+        k_seg = (4, 6)[pos % 2]
+        n = max(n, 2 * k_seg)
+        cps = [int(n * (i + 1) / k_seg) for i in range(k_seg - 1)]
+        wrong = [np.full(p, float(i)) for i in range(2 if k_seg == 4 else 3)]
+        call = (lambda: generate_changing_data(n, cps, wrong, one, case["seed"])) if pos % 3 else \
+            (lambda: generate_changing_data(n, cps, vec, [np.full(p, 1.0 + i) for i in range(len(wrong))], case["seed"]))  # noqa: E731
+    elif kind == "anomalous_dividing_count":
+        n = max(n, 12)
+        an = [(0, 2), (3, 5), (6, 8), (9, 11)]
+        call = lambda: generate_anomalous_data(n, an, [np.zeros(p), np.full(p, 5.0)], one, case["seed"])  # noqa: E731
+    elif kind == "anomalous_invalid_with_baseline_parameters":
+        bad = [(-pos, 2), (1, n + pos), (2, 2), (3, 1)][pos % 4]
+        zero, unit = ([0.0], [1.0]) if pos % 2 else ([np.zeros(p)], [np.ones(p)])
+        call = lambda: generate_anomalous_data(n, [bad], zero, unit, case["seed"])  # noqa: E731
     else:
         call = lambda: generate_anomalous_data(n, [(0, 1, 2)], vec, one, case["seed"])  # noqa: E731
     try:
